@@ -9,11 +9,14 @@
   * `WF d`                      decidable; evaluated by the driver on every dumped netlist;
   * `Acyclic d`                 no definition instantiates itself transitively;
   * `(uniquify fuel d).finished` the walk ran to completion with the given fuel (reported by the driver
-                                for every input; the harness treats `false` as a broken obligation);
+                                for every input; `uniquify_finishes`: it does for every fuel ≥ the
+                                size of the unfolding);
   (`(uniquify fuel d).ok`, the bounded search for a free name succeeded, is a theorem: `uniquify_ok`.)
 -/
 import Spydr.Xform.LemmasUniqNames
 import Spydr.Xform.LemmasUniqOk
+import Spydr.Xform.LemmasUniqPos
+import Spydr.Xform.LemmasUniqFuel
 
 namespace Spydr.Xform
 
@@ -122,14 +125,40 @@ theorem uniquify_fresh_names (fuel : Nat) (d : Design) (hwf : WF d) :
 
 /-- Each copy is inserted immediately behind its original in the original's library (one step of the
     walk; `pre ++ x :: post` becomes `pre ++ x :: new :: post`, other libraries untouched).
-    The whole-run form ("in the final order every new definition sits behind its original with only
-    later copies in between") is checked by the harness oracle, not proved. -/
+    Whole-run form: `uniquify_behind_original` below. -/
 theorem uniquify_step_position {d d' : Design} {q k : Nat} {c : Inst} (hwf : WF d) (hq : q < d.ndefs)
     (hc : (d.defs q).children[k]? = some c) (h : makeUnique d q k c.ref = some d') :
     ∃ l pre post, d.order[l]? = some (pre ++ c.ref :: post) ∧
       d'.order[l]? = some (pre ++ c.ref :: d.ndefs :: post) ∧ (d.defs c.ref).lib = l ∧
       (d'.defs d.ndefs).lib = l ∧ ∀ l', l' ≠ l → d'.order[l']? = d.order[l']? :=
   makeUnique_position hwf hq hc h
+
+/-- Whole-run form of "new definitions sit right behind their original": in the final order of every
+    library, each new definition `n` is preceded in its list by the definition `x` it is a copy of
+    (same library, ports, cables; name `x_sdn_unique_k`), with only definitions newer than `n` in
+    between. -/
+theorem uniquify_behind_original (fuel : Nat) (d : Design) (hwf : WF d) :
+    Behind d.ndefs (uniquify fuel d).design := by
+  have := uLoop_induct (fun d' queue => WFQ d' queue ∧ d.ndefs ≤ d'.ndefs ∧ Behind d.ndefs d')
+    (by
+      intro d1 q k rest d2 push ⟨inv, hle, hb⟩ h
+      refine ⟨inv.step h, ?_⟩
+      have hq : q < d1.ndefs := inv.2 (q, k) List.mem_cons_self
+      rcases uStep_cases h with ⟨rfl, _, _⟩ | ⟨c, hc, ⟨rfl, _, _⟩ | ⟨_, hl, hm, _⟩⟩
+      · exact ⟨hle, hb⟩
+      · exact ⟨hle, hb⟩
+      · have hn := (makeUnique_some hm).choose_spec.choose_spec.2.1
+        exact ⟨by omega, makeUnique_behind inv.1 hq hc hm hle hb⟩)
+    fuel (uInit d) ⟨WFQ.init hwf, Nat.le_refl _, behind_refl d⟩ (uniquify_ok fuel d)
+  exact this.2.2
+
+/-- Fuel: the walk terminates; explicitly, it finishes as soon as the fuel reaches the number of
+    instance occurrences of the elaborated design (`wt d (rank top) top - 1`, the size of the
+    unfolding below the top instance). -/
+theorem uniquify_finishes (d : Design) (hwf : WF d) (hac : Acyclic d) :
+    ∃ N, ∀ fuel, N ≤ fuel → (uniquify fuel d).finished = true := by
+  obtain ⟨rank, hr⟩ := hac
+  exact ⟨wt d (rank d.top) d.top, fun fuel hf => uniquify_finished hwf hr (by omega)⟩
 
 /-- Running uniquify again changes nothing (not even the name counter), whatever the fuel. -/
 theorem uniquify_idem (fuel : Nat) (d : Design) (hwf : WF d) (hac : Acyclic d)
